@@ -15,7 +15,7 @@ import inspect
 
 from vlib.common import NCPU, Run, Shard, describe_exc, rng, run_shards
 
-POLL = 0.1
+from vlib.libconst import poll, retry_pause
 GATED_VERBS = ("SPACK", "GETWC", "SETWC", "REQRM")
 
 
@@ -115,7 +115,8 @@ class EngineMonitor:
         sh, w = self.sh, self.w
         late = REGIMES[regime][0]
         stalls = w.loop.vsel.injected_stalls
-        P = 2  # PAUSE_BETWEEN_RETRIES_IN_SECONDS is 2 in both tables
+        P = retry_pause()
+        POLL = poll()
         q = self.rig.protocol.queue if self.rig.protocol is not None else self._queue
         pops = [ev for ev in q.events[e0:] if ev[0] == "pop"]
         for c in self.calls:
